@@ -40,6 +40,9 @@ def plan(tier, seed):
     nshard = 4 if tier == 'quick' else 16
     for i in range(nshard):
         shards.append(dict(kind='walk', seed=seed * 1000 + i, n=n // nshard, length=length))
+    for i, bgp in enumerate(({'rib': True}, {'rib': True, 'afi_safi': ['ipv6']}, {'rib': True, 'afi_safi': ['flowspec', 'evpn']}, {'afi_safi': ['ipv4', 'ipv6', 'flowspec']})):
+        shards.append(dict(kind='walk', seed=seed * 1000 + 100 + i, n=n // nshard, length=length, bgp=bgp))
+        shards.append(dict(kind='bfs', part=0, nparts=1, d0=1, depth=DEPTH[tier][1] - 1, budget=BUDGET[tier], bgp=bgp))
     # walks whose peer messages are well-framed mutations of the unit-test corpus (hostile bodies: decoded, reported as
     # malformed, ignored or answered with a NOTIFICATION - each frame is still one received message of its type)
     for i in range(nshard):
@@ -50,6 +53,8 @@ def plan(tier, seed):
 def run_shard(sh):
     res = dict(evaluations=0, counters={}, maxima={}, sets={}, distinct=[], samples=[], violations=[])
     cfg = dict(time_opts={'idle_hold_time': 5, 'connect_retry_time': 40})
+    if sh.get('bgp'):
+        cfg['bgp_opts'] = sh['bgp']     # RIB maintenance on, with and without the IPv4 family configured
     viol = {}
     stats = dict(comparisons=0, skipped=0)
     totals = {}
